@@ -160,6 +160,34 @@ func monC04(c *drv.Ctx) {
 		cs.C.ObsMax("max_zero_run_tolerated", int64(run))
 	})
 
+	// (3a') standard-library sources holding the whole stream (readers that also have Len/WriteTo/ReadByte, the
+	// iotest fragmenters, Limit/Multi/Section readers): histories that mix requests beyond the stream (which must
+	// fail and consume nothing) with requests the stream can still satisfy afterwards
+	c.Stage("std-sources", c.Pick(6000, 200000), false, func(cs *drv.Case) {
+		r := cs.R
+		kind := 1 + int(cs.Idx%nStdSources)
+		L := []int{0, 1, 10, 100, 4096, 5000, 9000, 20000}[r.Intn(8)]
+		n := 2 + r.Intn(8)
+		ops := make([]rOp, n)
+		for i := range ops {
+			ops[i] = rOp{Kind: r.Intn(5), N: r.Intn(L + 2)}
+			switch r.Intn(5) {
+			case 0: // beyond what the stream holds
+				ops[i].N = L + 1 + r.Intn(10000)
+			case 1:
+				ops[i].N = []int{0, 1, L, L / 2, 4096, 4097}[r.Intn(6)]
+			}
+			if ops[i].Kind == opRelease {
+				ops[i].N = 0
+			}
+		}
+		spec := srcSpec{Len: L, ErrAt: L}
+		cs.Desc = M{"ops": opsString(ops), "source": stdSourceNames[kind], "stream_len": L}
+		runReaderHistory(cs, ops, spec, readerOpts{std: kind})
+		cs.Count(true, "std", kind, L, opsString(ops))
+		cs.C.Obs("histories over standard-library sources", 1)
+	})
+
 	// (3c) a bytes-backed reader asked for far more than it holds: everything there will ever be is in the
 	// slice, so the answer is the source's error (io.EOF), for every n, with nothing consumed
 	hugeN := []int{1 << 20, 1 << 31, 1<<32 + 7, 1 << 40, 1 << 45, 1 << 50, 1 << 61, 1<<62 + 1, math.MaxInt64}
